@@ -13,20 +13,20 @@ Proof. vm_compute. reflexivity. Qed.
 
 (* ---- the round trip, for the expression core (see Surface/RoundTrip.v for the fragment [core]:
    literals, variables, strings with interpolation, enum tags and variants, arrays, application,
-   the strict and lazy infix operators of every level, negation, static access, if, fun and let
+   the strict and lazy infix operators of every level, negation, %primop% applications, static access, imports, if, fun and let
    with variable patterns, annotations with base / contract / arrow / array types, records with
    simple fields).  [pa] is the model parser instantiated at the generated table, [pr] the model
    printer; [repaired_code] is the variant of the code the check ties to /repo. *)
 
 Theorem C14_parse_print_core :
-  forall t, core infix_ops repaired_code t -> pa repaired_code (pr repaired_code t) = Some t.
+  forall t, core primops infix_ops repaired_code t -> pa repaired_code (pr repaired_code t) = Some t.
 Proof.
   exact (parse_print_core binops prefixops max_level primops keywords op_spelling infix_ops postfix_ops
            repaired_code C14_op_table_wf eq_refl eq_refl).
 Qed.
 
 Theorem C14_print_fixpoint_core :
-  forall t t', core infix_ops repaired_code t ->
+  forall t t', core primops infix_ops repaired_code t ->
     pa repaired_code (pr repaired_code t) = Some t' -> pr repaired_code t' = pr repaired_code t.
 Proof.
   exact (print_fixpoint_core binops prefixops max_level primops keywords op_spelling infix_ops postfix_ops
@@ -34,7 +34,7 @@ Proof.
 Qed.
 
 (* the hypothesis is satisfiable by a non-trivial program *)
-Theorem C14_core_nonvacuous : core infix_ops repaired_code ex_core.
+Theorem C14_core_nonvacuous : core primops infix_ops repaired_code ex_core.
 Proof. exact ex_core_in_fragment. Qed.
 
 (* the number of percent signs the printer chooses for a multiline string (nb_percent, from
